@@ -33,3 +33,77 @@ def replay(ck, pid, path):
         return 1 if rej else 0
     finally:
         shutil.rmtree(scratch, ignore_errors=True)
+
+
+def c18(ck, scratch, vh, prop, tier, seed, ev):
+    """C18: stress workload under the race detector; reports are mapped to variables of spec/Locks.tla
+    (bin/racemap.py) and judged by spec/LocksTrace.tla."""
+    import glob, json, subprocess, time, collections
+    import racemap
+    runs = 2 if tier == 'quick' else 4
+    profile = 'short' if tier == 'quick' else 'long'
+    files = []
+    known = ck.known_devs()
+    for i in range(runs):
+        out = os.path.join(scratch, 'traces', 'race-%d' % i)
+        logs = os.path.join(scratch, 'racelogs-%d' % i)
+        os.makedirs(out, exist_ok=True)
+        os.makedirs(logs, exist_ok=True)
+        t0 = time.time()
+        env = dict(os.environ, GORACE='log_path=%s/race halt_on_error=0 history_size=3' % logs, TMPDIR=os.path.join(scratch, 'jtmp'))
+        rc, txt = ck.run([vh, '-family', 'race', '-profile', profile, '-seed', str(seed * 100 + i), '-out', out], 600, env=env)
+        traces = sorted(glob.glob(os.path.join(out, '*.ndjson')))
+        if not traces:
+            raise ck.MachineryError('race workload produced no trace (rc %d):\n%s' % (rc, txt[-2000:]))
+        text = ''.join(open(f, errors='replace').read() for f in glob.glob(os.path.join(logs, 'race*')))
+        verdicts = collections.OrderedDict()
+        unclassified = collections.Counter()
+        nrep = 0
+        blocks = racemap.reports(text)
+        events = []
+        for l in open(traces[0]):
+            e = json.loads(l)
+            if e.get('e') == 'crash':
+                st = e.get('stack', '').split('panic(')[-1]
+                blocks.append('WARNING: DATA RACE\nWrite at crash:\n' + st + '\n\nPrevious read at crash:\n' + st)
+            else:
+                events.append(e)
+        for b in blocks:
+            nrep += 1
+            kind, v, fns = racemap.verdict(b, {'registry', 'colList', 'data', 'idxFill'})
+            short = tuple(sorted(str(f).replace('github.com/kelindar/column', '') for f in fns))
+            if kind == 'unclassified':
+                unclassified[short] += 1
+                continue
+            key = (kind, v)
+            if key not in verdicts:
+                verdicts[key] = {'n': 0, 'fns': set()}
+            verdicts[key]['n'] += 1
+            verdicts[key]['fns'].add(short)
+        final = list(events)
+        for (kind, v), d in verdicts.items():
+            final.append({'e': 'race', 'v': v, 'kind': kind, 'n': d['n'], 'fns': [list(x) for x in sorted(d['fns'])][:6]})
+        with open(traces[0], 'w') as f:
+            for e in final:
+                f.write(json.dumps(e) + '\n')
+        files.append(traces[0])
+        ck.log('  [G] race workload %d: %d reports/crashes in %.1fs: %s; unclassified %d' % (
+            i, nrep, time.time() - t0, ', '.join('%s:%s x%d' % (k[0], k[1], d['n']) for k, d in verdicts.items()), sum(unclassified.values())))
+        ev['families'].append({'family': 'race', 'profile': profile, 'reports': nrep,
+                               'by_variable': {('%s:%s' % k): d['n'] for k, d in verdicts.items()},
+                               'unclassified_pairs': [[list(k), n] for k, n in unclassified.most_common(10)]})
+    rejections, validated, devs = ck.validate(scratch, prop['trace'], files, known, ev, groups=1)
+    classes = set()
+    total = 0
+    for fm in ev['families']:
+        total += fm.get('reports', 0)
+    for f in files:
+        for l in open(f):
+            e = json.loads(l)
+            if e.get('e') == 'race':
+                for fn in e.get('fns', []):
+                    classes.add((e['v'], tuple(fn)))
+    ev['override'] = {'evaluations': total + len(files), 'distinct_nontrivial': len(classes),
+                      'rule': 'C18: evaluations = race-detector reports and recorded panics of the stress workloads (plus the workloads themselves); '
+                              'distinct_nontrivial = distinct (model variable, pair of innermost library functions) classes among them. '}
+    return files, rejections, validated, devs
